@@ -127,7 +127,9 @@ func (la *LockAnalysis) objOf(fr *frame, v ssa.Value) string {
 				return ""
 			}
 			switch x.Type().Underlying().(type) {
-			case *types.Pointer, *types.Slice, *types.Map:
+			case *types.Pointer:
+				return inner + "→" // the pointee, as opposed to the slot that holds the pointer
+			case *types.Slice, *types.Map:
 				return inner
 			}
 		}
@@ -454,4 +456,12 @@ func (la *LockAnalysis) ObjOfIn(fn *ssa.Function, recvObj string, v ssa.Value) s
 	fr := &frame{fn: fn, recv: recvObj, free: map[*ssa.FreeVar]string{}, params: map[*ssa.Parameter]string{}}
 	la.bindFree(fr, nil)
 	return la.objOf(fr, v)
+}
+
+// Related reports whether two object names overlap in memory: equal, or one is a field path inside the other.
+func Related(a, b string) bool {
+	if a == b {
+		return true
+	}
+	return strings.HasPrefix(a, b+".") || strings.HasPrefix(b, a+".")
 }
